@@ -201,7 +201,8 @@ def check(ctx: Ctx) -> None:
                     l_, r_ = eqs[0][1], eqs[0][2]
                     l_ = l_.v if isinstance(l_, _K) else l_
                     r_ = r_.v if isinstance(r_, _K) else r_
-                    other = r_ if l_ is var else l_ if r_ is var else None
+                    cv = ml[0].__dict__.get("cond_var", var)
+                    other = r_ if l_ is cv else l_ if r_ is cv else None
                 tok_ok = other is arg or (isinstance(other, SStr) and _strip_of(other, arg))
                 ctx.check(good and tok_ok, "C16.remove", "tokens are kept iff they differ (!=) from the stripped argument", where,
                           f"filter {cond} against {short(other)}", f"remove_class filters tokens with `{cond}`: not `token != <argument>` (exact token comparison)",
